@@ -135,6 +135,13 @@ def scenario(inst, V):
         if kind == "OK" and style == "function":
             V.check("result-identity", res is fnlib.HOLD["ret"])
         verdicts.append(kind)
+    if ret is not None:
+        # a forgotten `return`: None can never match an array annotation
+        fnlib.HOLD["ret"] = None
+        for tc, style in (("typeguard", "function"), ("beartype", "function")):
+            fn, pn = fnlib.build(params, ret, V.ARR, tc, style, ident)
+            kind, _ = fnlib.call(fn, pn, values, "pos")
+            V.check("none-return-rejected", kind in ("TCE", "ERR"), got=kind, tc=tc)
     v0 = verdicts[0]
     V.reach(v0)
     V.check("variants-agree", all(v == v0 for v in verdicts), verdicts=verdicts)
